@@ -261,6 +261,18 @@ def _strip_loop_hash(x):
     return x
 
 
+def _first_diff(a, b, depth=0):
+    """Smallest pair of differing sub-terms of two terms (for the report)."""
+    if a == b:
+        return None
+    if isinstance(a, tuple) and isinstance(b, tuple) and len(a) == len(b) and a[:1] == b[:1] and depth < 60:
+        diffs = [(x, y) for x, y in zip(a, b) if x != y]
+        if len(diffs) == 1:
+            d = _first_diff(diffs[0][0], diffs[0][1], depth + 1)
+            return d if d is not None else diffs[0]
+    return (a, b)
+
+
 def _go_on(gs):
     return frozenset(x for x in gs if x[1] != 'r')
 
@@ -360,11 +372,19 @@ def compare(ctx, rule, fa, ref_source, module=None, known=(), ignore=None, why='
             if best is None or ratio > best:
                 best, bi = ratio, i
         exp = None
+        why2 = why
         if bi is not None:
             used.add(bi)
             exp = _show_effect(*remaining[bi][:2])
+            d = _first_diff(p, remaining[bi][0])
+            if d is None:
+                d = _first_diff(tuple(sorted(_go_on(gs), key=repr)), tuple(sorted(_go_on(remaining[bi][1]), key=repr)))
+            if d is not None:
+                def _s(x):
+                    return (_sh(x) if isinstance(x, tuple) and T.is_term(x) else repr(x))[:160]
+                why2 = f'{why}  [first difference: found {_s(d[0])} / expected {_s(d[1])}]'
         k += 1
-        _report(ctx, rule, fa, e, fs, exp, known, why, f'changed-effect#{k}' if exp else f'extra-effect#{k}')
+        _report(ctx, rule, fa, e, fs, exp, known, why2, f'changed-effect#{k}' if exp else f'extra-effect#{k}')
     for i, (q, hs, _) in enumerate(remaining):
         if i in used:
             continue
